@@ -50,6 +50,13 @@ CHECKS = {
           'every mutable static (shared generators, literal parser) is reset before use, never written, or a listed singleton. Equal initial state for every call is the structural condition for "result depends only on this input".',
   'note': 'Assumes the analysers are deterministic functions of their members and arguments (no hidden state outside the inventoried statics; third-party RE/flex matcher state is rebound by in()). Exemption tables (configuration members, error sinks) are in rules/C18.py with one reason each.',
  },
+ 'C09': {
+  'technique': 'CO-UPDATE / WHO-MAY-CALL / GUARDED path rules on the CFG and resolved call graph, no-mutation-before-refusal via mod-set + path enumeration, finite-domain evaluation of the kind tables',
+  'text': 'Decides the structural conditions for the identity/ordering invariants on every path of every mutator: a constituent enters and leaves all four views of RSCore together, only the tracking-aware eraser reaches RSCore::Erase, '
+          'tracked constituents are guarded before the core is touched, every refusing return of the identity/list/core/form mutators is unreachable after a state change (callees refuse cleanly, checked recursively), identifier and alias are registered on every path, '
+          'and the priority / letter / kind tables are evaluated over all 8x8 kind pairs against base > constant > structured > derived and the letter bijection.',
+  'note': 'Does not decide list order after arbitrary MoveBefore sequences beyond what the priority table implies, nor uniqueness of random identifiers (EntityGenerator::NewUID loops until insertion succeeds; trusted). Exemption: RSCore::ResetAliases re-registers all entities by design.',
+ },
 }
 
 _PENDING = 'rule module not yet implemented in this round; see DESIGN.md section 4 for the clauses planned'
